@@ -275,13 +275,17 @@ namespace bluetoe {
 
         /**
          * @brief Specialisation for one characteritics with notification or indication enabled
+         *
+         * A characteristic can have a notification and an indication queued at the same time, so
+         * there is one flag for each of them (same behaviour as the generic implementation with Size == 1,
+         * without the memory for the round robin index).
          */
         template < int C >
         class notification_queue_impl< 1, C >
         {
         public:
             notification_queue_impl()
-                : state_( notification_queue_entry_type::empty )
+                : state_( 0 )
             {
             }
 
@@ -290,50 +294,60 @@ namespace bluetoe {
                 static_cast< void >( idx );
                 assert( idx == 0 );
 
-                const bool result = state_ == notification_queue_entry_type::empty;
-
-                if ( result )
-                    state_ = notification_queue_entry_type::notification;
-
-                return result;
+                return add( notification_bit );
             }
 
             bool queue_indication( std::size_t idx )
             {
                 static_cast< void >( idx );
                 assert( idx == 0 );
-                const bool result = state_ == notification_queue_entry_type::empty;
 
-                if ( result )
-                    state_ = notification_queue_entry_type::indication;
-
-                return result;
+                return add( indication_bit );
             }
 
             std::pair< notification_queue_entry_type, std::size_t > dequeue_indication_or_confirmation( std::size_t offset, std::size_t& outstanding_confirmation )
             {
-                const auto result = state_ == notification_queue_entry_type::notification || ( state_ == notification_queue_entry_type::indication && outstanding_confirmation == details::no_outstanding_indicaton )
-                    ? std::pair< notification_queue_entry_type, std::size_t >{ static_cast< notification_queue_entry_type >( state_ ), offset }
-                    : std::pair< notification_queue_entry_type, std::size_t >{ notification_queue_entry_type::empty, 0 };
+                const std::uint8_t state = state_;
 
-                if ( result.first == notification_queue_entry_type::indication )
+                if ( ( state & indication_bit ) && outstanding_confirmation == details::no_outstanding_indicaton )
+                {
                     outstanding_confirmation = offset;
+                    state_ &= static_cast< std::uint8_t >( ~indication_bit );
 
-                if ( result.first != notification_queue_entry_type::empty )
-                    state_ = notification_queue_entry_type::empty;
+                    return { notification_queue_entry_type::indication, offset };
+                }
+                else if ( state & notification_bit )
+                {
+                    state_ &= static_cast< std::uint8_t >( ~notification_bit );
 
-                return result;
+                    return { notification_queue_entry_type::notification, offset };
+                }
+
+                return { notification_queue_entry_type::empty, 0 };
             }
 
             void clear_indications_and_confirmations()
             {
-                state_ = notification_queue_entry_type::empty;
+                state_ = 0;
             }
         private:
+            bool add( std::uint8_t bit )
+            {
+                const bool result = ( state_ & bit ) == 0;
+                state_ |= bit;
+
+                return result;
+            }
+
+            enum char_bits : std::uint8_t {
+                notification_bit = 0x01,
+                indication_bit   = 0x02
+            };
+
 #ifdef BLUETOE_VERIF_HOOKS
-            verif_hooks::yielding< notification_queue_entry_type > state_;
+            verif_hooks::yielding< std::uint8_t > state_;
 #else
-            notification_queue_entry_type state_;
+            std::uint8_t state_;
 #endif
         };
 
